@@ -19,7 +19,7 @@ def run(tier):
     cases.sort(key=lambda c: json.dumps(c, sort_keys=True))
     cf = scratch() / "c11_cases.json"
     cf.write_text(json.dumps(cases))
-    seeds = ["0", "1", "12345"] if quick else ["0", "1", "2", "12345", "987654", "random"]
+    seeds = ["0", "1", "2", "3", "12345", "4711"] if quick else ["0", "1", "2", "3", "4", "5", "6", "7", "12345", "987654", "4711", "random"]
     procs = []
     for hs in seeds:
         of = scratch() / ("c11_out_%s.json" % hs)
